@@ -90,7 +90,7 @@ def parseCfg (s : String) : Cfg := Id.run do
       else if k == "b" then cfg := { cfg with bools := v == "1" }
       else if k == "i" then cfg := { cfg with ips := v == "1" }
       else if k == "w" then cfg := { cfg with ns := v == "1" }
-      else if k == "e" then cfg := { cfg with eager := if v == "" then [] else (v.splitOn ":").map unhexStr }
+      else if k == "e" then cfg := { cfg with eager := if v == "" then [] else (v.splitOn ":").map fun e => unhexStr (e.drop 1).toString }
       else if k == "z" then z := v != ""
       else if k == "zm" then zm := if v == "" then [] else (v.splitOn ":").map fun e => unhexStr (e.drop 1).toString
       else if k == "y" then
